@@ -238,6 +238,7 @@ Proof.
     by (extensionality i; extensionality j; unfold fmul; ring).
   rewrite Sinv_mul, Sinv_S, fmul_clip_l, Finv_dom. apply modulation_inv.
 Qed.
+
 End Shift.
 
 
@@ -320,6 +321,32 @@ Proof.
 Qed.
 Lemma fraun_scaled c0 u c : fscal c0 (fmul c (Sinv (F (S u)))) = fraun u (fscal c0 c).
 Proof. unfold fraun. rewrite fmul_scal_l. reflexivity. Qed.
+
+
+Section Shift2.
+Variable T : fld -> fld.
+Variable Ph : fld.
+Hypothesis modulation : forall u, F (T u) = fmul Ph (F u).
+Hypothesis modulation_inv : forall U, Finv (fmul Ph U) = T (Finv U).
+
+(* the centred-origin forms are shift-equivariant as well *)
+Theorem centered_shift u K : (forall u, S (T u) = T (S u)) -> (forall u, Sinv (T u) = T (Sinv u)) ->
+  centered (T u) K = T (centered u K).
+Proof.
+  intros HS HSi. unfold centered. rewrite HS, modulation.
+  replace (fmul (S K) (fmul Ph (F (S u)))) with (fmul Ph (fmul (S K) (F (S u))))
+    by (extensionality i; extensionality j; unfold fmul; ring).
+  rewrite modulation_inv, HSi. reflexivity.
+Qed.
+Theorem conv_centered_shift u h : (forall u, S (T u) = T (S u)) -> (forall u, Sinv (T u) = T (Sinv u)) ->
+  conv_centered (T u) h = T (conv_centered u h).
+Proof.
+  intros HS HSi. unfold conv_centered. rewrite HS, modulation.
+  replace (fmul (F (S h)) (fmul Ph (F (S u)))) with (fmul Ph (fmul (F (S h)) (F (S u))))
+    by (extensionality i; extensionality j; unfold fmul; ring).
+  rewrite modulation_inv, HSi. reflexivity.
+Qed.
+End Shift2.
 
 (* legacy (pre-repair) pipeline differs from the documented one exactly by a squared aperture *)
 Lemma custom_legacy_is_squared u K A : custom_legacy u K A = custom u K (fmul A A).
